@@ -9,9 +9,11 @@
   Reading of the statement (DESIGN §4.21 and DESIGN_C13.md):
   * "verifies against a key set" is sequential key-set verification as proved sound for C02
     (`KeySet.VerifySignature` of a published set: `FindMatchingKey` + signature check).
-  * ACCEPT  ⇒ the returned bytes are the token's payload and the token verifies against the key set
-    of some SUCCESSFUL download that ended before the call returned (so the key was served by the
-    endpoint at that download's end; a cache hit may use a key served at an earlier instant).
+  * ACCEPT  ⇒ the returned bytes are the token's payload and the token verifies against (a) the key set of
+    the most recently retired SUCCESSFUL download as it stood at some instant of the call (a cache hit: the
+    key was served at that download's end, an earlier instant), or (b) the key set of a successful download
+    that was not yet announced when the call started (its refresh). A key that only an OLDER download
+    contained is retired and must not verify anything any more.
   * REJECT (`noKey`/`badSig`) ⇒ either the token is rejected by the key set of a successful download
     that was NOT yet announced when the call started (the one refresh of that call is fresh), or a
     successfully downloaded key set contains the very key the token names by a non-empty `kid` (or, with
@@ -22,6 +24,13 @@
     by a cancellation fails a call only if that call's own context is cancelled (cancel isolation).
   * a failed download never discards cached keys: if, at every instant of the call, the key set of the
     most recently retired successful download verifies the token, the call must not end in an error.
+  * what counts as a download: the endpoint's answer (`Answer`) is a SUCCESSFUL download exactly when its status is 200 and
+    its WHOLE body is one well-formed JSON document of the JWKS shape; the key set it serves is then the document's entries of
+    known key type. Anything else — another status even with a perfect key set as body, text that is not JSON, truncated JSON,
+    a key set followed or preceded by other bytes (a BOM, junk, a second JSON value, a second key set), JSON of another shape — is
+    a FAILED download: the calls waiting for it fail, the cache keeps what it had, and no token is accepted because of it.
+    "JWKS shape" is what `encoding/json` reads into `struct{ Keys []json.RawMessage }` (so `null`, `{}` and `{"keys":null}` denote
+    the empty key set, like `{"keys":[]}`; an array, a string, `{"keys":5}` do not have the shape).
   * single flight: no download begins while another one has begun and not ended; at most one
     download begins on behalf of one call ("at most one refresh", per call).
   Outside the monitor (partial): liveness (every call returns), anything below the schedule points.
@@ -51,6 +60,7 @@ structure MCaller where
   cancelled : Bool := false
   stale : Fid → Bool := fun _ => false   -- downloads already announced when the call started
   hit : Bool := false                    -- every key set the cache had to hold since the call started verifies the token
+  mayHit : Bool := false                 -- some key set the cache had to hold at some instant since the call started verifies it
   owned : Nat := 0                       -- downloads begun on behalf of this call
 
 structure MState where
@@ -83,11 +93,13 @@ def failedWith (m : MState) (f : Fid) (k : EndKind) : Bool :=
 /-- some download begun and not ended -/
 def anyOpen (m : MState) : Bool := (List.range m.nf).any fun g => m.begun g && (m.res g).isNone
 
-/-- ACCEPT: some successful download's key set verifies the token -/
-def acceptJustified (m : MState) (tok : JWS) : Bool :=
-  (List.range m.nf).any fun f =>
+/-- ACCEPT: the key set the cache had to hold at some instant of the call (= the most recently retired successful download)
+    verifies the token, or a successful download that was unannounced when the call started does. A key of an OLDER download
+    that a later successful download no longer contains is retired: it justifies nothing. -/
+def acceptJustified (m : MState) (mc : MCaller) : Bool :=
+  mc.mayHit || (List.range m.nf).any fun f =>
     match okKeys m f with
-    | some ks => refAccepts ks tok
+    | some ks => !mc.stale f && refAccepts ks mc.tok
     | none => false
 
 /-- REJECT: a fresh successful download's key set rejects the token, or the named key is known and rejects it -/
@@ -108,7 +120,7 @@ def judge (m : MState) (c : Cid) (o : Outcome) : Option String :=
   match o with
   | .payload b =>
     if b != mc.tok.payload.bytes then some "payload-changed"
-    else if acceptJustified m mc.tok then none else some "accepted-without-served-key"
+    else if acceptJustified m mc then none else some "accepted-without-served-key"
   | .ctxErr => if mc.cancelled then none else some "ctx-error-with-live-context"
   | .fetchErr k =>
     if mc.hit then some "cached-keys-discarded"
@@ -125,7 +137,7 @@ def judge (m : MState) (c : Cid) (o : Outcome) : Option String :=
 def mstep (m : MState) : Obs → MState
   | .start c tok =>
     if (m.callers c).started then m.flag "call-id-reused" else
-    let mc : MCaller := { tok := tok, started := true, stale := m.announced, hit := refAccepts m.cacheExpect tok }
+    let mc : MCaller := { tok := tok, started := true, stale := m.announced, hit := refAccepts m.cacheExpect tok, mayHit := refAccepts m.cacheExpect tok }
     { m with callers := upd m.callers c mc }
   | .finish c o =>
     let m' := match judge m c o with
@@ -141,14 +153,14 @@ def mstep (m : MState) : Obs → MState
     let m3 := if m2.begun f then m2.flag "download-id-reused" else m2
     let mo : MCaller := { m3.callers owner with owned := (m3.callers owner).owned + 1 }
     { m3 with nf := max m3.nf (f + 1), begun := upd m3.begun f true, callers := upd m3.callers owner mo }
-  | .fetchEnd f k =>
+  | .fetchEnd f a =>
     let m1 := if !m.begun f || (m.res f).isSome then m.flag "download-end-without-begin" else m
-    { m1 with res := upd m1.res f (some (k, if k == .ok then decode m1.served else [])) }
+    { m1 with res := upd m1.res f (some (endOf a)) }
   | .announce f => { m with announced := upd m.announced f true }
   | .retire f =>
     match okKeys m f with
     | some ks =>
-      { m with cacheExpect := ks, callers := fun c => { m.callers c with hit := (m.callers c).hit && refAccepts ks (m.callers c).tok } }
+      { m with cacheExpect := ks, callers := fun c => { m.callers c with hit := (m.callers c).hit && refAccepts ks (m.callers c).tok, mayHit := (m.callers c).mayHit || refAccepts ks (m.callers c).tok } }
     | none => m
   | .point _ _ => m
 
